@@ -635,6 +635,7 @@ def replay(ctx):
         check_snapshots(ctx, [r["input"]], "replay")
     else:
         run_probes(ctx, [p], "replay")
+    ctx.cov.update({"evaluations": 3, "distinct_nontrivial": 0, "rule": "replay of one recorded failing program", "samples": [r["input"][-400:]]})
 
 
 def run(ctx):
@@ -664,14 +665,14 @@ def run(ctx):
 
     # (b) collector algorithm on snapshots
     progs = list(SNAP_PROGRAMS)
-    rs = random_snapshot_programs(rng, 12 if quick else 150)
+    rs = random_snapshot_programs(rng, 16 if quick else 200)
     progs += [s for s, rg in rs]
     nsnap, nsnap_nontriv = check_snapshots(ctx, progs, "snap")
 
     # (c) role probes, pairs, random programs
     plist = probes()
-    plist += probe_pairs(rng, 12 if quick else 64)
-    plist += [random_program(rng) for _ in range(60 if quick else 1500)]
+    plist += probe_pairs(rng, 16 if quick else 64)
+    plist += [random_program(rng) for _ in range(200 if quick else 3000)]
     nontriv, failed, bad_ref = run_probes(ctx, plist, "probes")
     finish(ctx, plist, nontriv, failed, nsnap, nsnap_nontriv)
 
